@@ -8,7 +8,9 @@ mod gate;
 
 fn main() {
     let args = Args::parse();
-    explorer::quiet_panics();
+    if std::env::var_os("VERIF_LOUD").is_none() {
+        explorer::quiet_panics();
+    }
     let code = match args.property.as_str() {
         "C11" => c11::run(Report::new(&args, "model_checking")),
         "C12" => c12::run(Report::new(&args, "fault_enumeration")),
